@@ -46,10 +46,13 @@ pub fn check_header(code: &str, d: &Decl) -> Result<(), String> {
         expect(format!("{};", strip_ws(u)), "use line")?;
     }
     expect("pubfnt_html<".to_string(), "function")?;
-    for l in &d.lifetimes {
-        expect(format!("{l},"), "lifetime parameter")?;
+    // the generic parameter list is exactly the declared lifetimes, in order, followed by the sink type
+    let generics: String = d.lifetimes.iter().map(|l| format!("{l},")).collect::<String>() + "W>(";
+    if !head[pos.get()..].starts_with(&generics) {
+        let got = &head[pos.get()..];
+        return Err(format!("generic parameter list: expected `<{generics}` (the declared lifetimes verbatim, then the sink type), found `<{}`", &got[..got.find(">(").map_or(got.len().min(60), |i| i + 2)]));
     }
-    expect("W>(".to_string(), "sink type parameter")?;
+    pos.set(pos.get() + generics.len());
     expect("mut_ructe_out_:W,".to_string(), "sink parameter first")?;
     for (n, _sep, ty) in &d.params {
         if ty == "Content" {
@@ -443,7 +446,17 @@ pub fn check_diag(src: &[u8], text: &str) -> Result<usize, String> {
 }
 
 pub fn run(args: &crate::Args) {
-    let cases = cases(&args.mix, args.n, args.seed);
+    let mut cases = cases(&args.mix, args.n, args.seed);
+    // compilation is a function of the template: cases that carry their documented tree are presented a
+    // second time at the end, after everything else (malformed inputs included), and must give the same
+    // result — state kept between compilations would show here
+    let again: Vec<Case> = cases
+        .iter()
+        .filter(|c| c.intended.is_some() && c.pair_of.is_none())
+        .take(4000)
+        .map(|c| Case { kind: c.kind, src: c.src.clone(), intended: c.intended.clone(), pair_of: None, decl: None })
+        .collect();
+    cases.extend(again);
     let dir = &args.out;
     let mut req = std::io::BufWriter::new(std::fs::File::create(format!("{dir}/req.txt")).unwrap());
     let mut imp = std::io::BufWriter::new(std::fs::File::create(format!("{dir}/impl.txt")).unwrap());
